@@ -549,3 +549,20 @@ def annotate_closures(src, ed, lo, hi, specs, log):
         ed.replace(sig[b1].start, sig[b2].end, f"|{sp['params']}| -> ({sp['ret']})\n        ensures {sp['ensures'].strip()}\n    {{ ", 'R12')
         ed.insert(sig[last].end, ' }', 'R12')
         log.append(f'R12 {src.rel}:{src.line_of(sig[b1].start)} closure {k} annotated with a contract')
+
+
+def rewrite_closure_tuple_params(src, ed, lo, hi, skip, log):
+    """R16: `|(a, b)| BODY` -> `|vx_p0| { let (a, b) = vx_p0; BODY }` (Verus accepts only variables as closure parameters)."""
+    sig = src.sig
+    for n, (b1, b2, first, last) in enumerate(find_closures(src, lo, hi)):
+        if n in skip:
+            continue
+        inner = sig[b1 + 1:b2]
+        if len(inner) >= 2 and inner[0].kind == 'p' and inner[0].text == '(' and inner[0].mate == b2 - 1:
+            pat = src.text[inner[0].start:sig[b2 - 1].end]
+            ed.replace(sig[b1].start, sig[b2].end, f'|vx_p{n}| {{ let {pat} = vx_p{n}; ', 'R16')
+            ed.insert(sig[last].end, ' }', 'R16')
+            log.append(f'R16 {src.rel}:{src.line_of(sig[b1].start)} closure with a tuple-pattern parameter: pattern moved into a `let`')
+        elif len(inner) == 1 and inner[0].kind == 'id' and inner[0].text == '_':
+            ed.replace(inner[0].start, inner[0].end, f'_vx_p{n}', 'R16')
+            log.append(f'R16 {src.rel}:{src.line_of(sig[b1].start)} closure parameter `_` named')
